@@ -8,6 +8,9 @@ require (
 	pgregory.net/rapid v1.3.0
 )
 
-require github.com/google/uuid v1.6.0 // indirect
+require (
+	github.com/google/uuid v1.6.0 // indirect
+	golang.org/x/sync v0.14.0 // indirect
+)
 
 replace github.com/google/badwolf => /repo
